@@ -12,7 +12,7 @@ import (
 )
 
 func init() {
-	register("C01", 30, "Decided (structural necessary conditions, for the current source): (R1) on each of the four (binary x compress) arms the decoder stack is the encoder stack with every writer replaced by its reader, and each wrapper uses the matching library codec; (R2) every line type one role can send is a type the other role expects, for the file exchange and the ACT/CFG/EXIT handshake; (R3) both ends decide compression through the same pure function of the negotiated config and the size, and exchange COMP exactly on its undecided edge; (R4) the per-file exchange order (name, size, data, MD5; nil file skips) and the protocol-version dispatch constants agree between sender and receiver; (R5) the negotiated protocol is min(client, server); plus the shared gates of C02 (digest/size) and C07-R5 (reported name = used name). Not decided: byte-for-byte equality for all trees x configurations x segmentations, that a fault-free transfer always completes, that each codec inverts its partner on all data.",
+	register("C01", 30, "Decided (structural necessary conditions, for the current source): (R1) on each of the four (binary x compress) arms the decoder stack is the encoder stack with every writer replaced by its reader, and each wrapper uses the matching library codec; (R2) every line type one role can send is a type the other role expects, for the file exchange and the ACT/CFG/EXIT handshake; (R3) both ends decide compression through the same pure function of the negotiated config and the size, and exchange COMP exactly on its undecided edge; (R4) the per-file exchange order (name, size, data, MD5; nil file skips) and the protocol-version dispatch constants agree between sender and receiver; (R5) the negotiated protocol is min(client, server); plus the shared gates of C02 (digest/size) and C07-R5 (reported name = used name). Not decided: byte-for-byte equality for all trees x configurations x segmentations, that a fault-free transfer always completes, that each codec inverts its partner on all data. Added after the mutation campaign (DESIGN §13): (R7) paired steps run under the same range of negotiated versions; (R8) directory / archive / plain-file dispatch has the same polarity on both ends; (R9) every name produced by the name step is in the reported list; (R10) v1/v2 NAME payload and its decoding agree on directory mode; (R11) number of per-file rounds = announced number; (R12) length-prefixed frames exactly on the binary edge; (R13) the receive stage forwards every non-empty chunk as a faithful copy and stops on the empty one; the decoded compress setting is stored.",
 		func(c *Ctx) {
 			c.run("C01-R1", "SIBLING: codec stacks mirror each other", c01R1)
 			c.run("C01-R2", "LITERAL: every line type sent by one role is expected by the other", c01R2)
